@@ -598,6 +598,7 @@ func checkC11(c *Ctx) {
 	c.Clause("the balancer and strategy locks are never re-acquired while held (a recursive read lock deadlocks as soon as an admin write queues between the two acquisitions) and are acquired in a consistent order")
 	c.Clause("RemoveBackend looks the name up and removes it in one write-locked critical section; AddBackend accepts only an http(s) URL with a host (anything else is an error before any state changes)")
 	c.Clause("AddBackend refuses a name that is already listed (an error, nothing changed): 'no backend of that name' is about one backend")
+	c.Clause("an admin request is decoded into a fresh variable of the handler call (nothing pooled or shared): fields a body leaves out are zero, not an earlier request's")
 	c.NotDecided("linearizability of concurrent histories beyond mutual exclusion; that in-flight requests complete")
 
 	lockOrder(c, "LoadBalancer.mutex", "Strategy.mutex", "Strategy.mu")
@@ -892,6 +893,7 @@ func checkC11(c *Ctx) {
 	c11OwnMachinery(c)
 	c.backendAddressUsable()
 	c.backendNamesUnique()
+	c.adminRequestFresh()
 	// 5. admin handlers
 	nm := p.Fn("internal/adminapi", "", "NewMux")
 	if nm == nil {
